@@ -239,6 +239,25 @@ def generate() -> str:
     if len(rem) != 2 or any(ast.dump(v) != _dump("max(required - len(chunk), 0)") for v in rem):
         raise TranslatorError("HttpPayloadParser.feed_data: remaining-length formula changed")
     out.append("(* max(required - len(chunk), 0) *)\nDefinition dg_remaining (required n : N) : N := (N.max (required - n) 0).")
+    # 0473a42 / 4127650 (lax chunked parser): tail length, lone CR after chunk data, trailer line length
+    ifs = [n for n in ast.walk(pf) if isinstance(n, ast.If)]
+    def _has(test, body, what):
+        hits = [n for n in ifs if ast.unparse(n.test) == test]
+        if len(hits) != 1 or [ast.unparse(x) for x in hits[0].body][:len(body)] != body:
+            raise TranslatorError(f"HttpPayloadParser.feed_data: {what} changed shape")
+        return hits[0]
+    _has("SEP == b'\\r\\n' or self._chunk != ChunkState.PARSE_CHUNKED_SIZE", ["tail_len -= self._chunk_tail.endswith(b'\\r')"], "chunk tail length (CR of the terminator)")
+    _has("tail_len > max_line_length", [], "chunk tail length test")
+    if [ast.unparse(v) for v in _assigns_to_name(pf, "tail_len")] != ["len(self._chunk_tail)"]:
+        raise TranslatorError("HttpPayloadParser.feed_data: tail_len is not len(self._chunk_tail)")
+    lone = _has("len(chunk) == 1", ["self._chunk_tail = chunk", "self._paused = False", "return (PayloadState.PAYLOAD_NEEDS_INPUT, b'')"], "lone CR after chunk data")
+    outer = _has("self._lax and chunk.startswith(b'\\r')", [], "lax CR skip after chunk data")
+    if outer.body[0] is not lone or [ast.unparse(x) for x in outer.body[1:]] != ["chunk = chunk[1:]"]:
+        raise TranslatorError("HttpPayloadParser.feed_data: lax CR skip is not `if len(chunk) == 1: keep; chunk = chunk[1:]`")
+    if [ast.unparse(v) for v in _assigns_to_name(pf, "line_len")] != ["len(line)"]:
+        raise TranslatorError("HttpPayloadParser.feed_data: trailer line_len is not len(line)")
+    _has("SEP == b'\\n'", ["line_len -= line.endswith(b'\\r')", "line = line.rstrip(b'\\r')"], "trailer line length (lax)")
+    _has("line_len > self._max_field_size", [], "trailer line length test")
     # every `return PayloadState.PAYLOAD_NEEDS_INPUT, ...` is preceded by `self._paused = False` (dc85988)
     def _blocks(node):
         for n in ast.walk(node):
